@@ -101,14 +101,25 @@ static size_t ref_b64enc(char *out, const unsigned char *in, size_t len, int var
 #define CANARY 0xC7
 static const char *txt(const unsigned char *t, size_t len) { return vf_hex(t, len); }
 
+/* every other call places the text so that its last byte is the last byte before an inaccessible page (reading text[len] faults); the others
+ * keep a valid digit right after the text (reading past len then shows in the result) */
+static unsigned char *gp_end; static const unsigned char *cur_text; static size_t cur_len; static int cur_which, cur_ig, cur_end; static size_t cur_cap;
+static void c15_crash_ctx(void) { snprintf(vf_ctx, sizeof vf_ctx, "%s/text=%s/ign=%d/cap=%zu/end=%d/text-ends-at-a-guard-page", cur_which < 4 ? "base642bin" : "hex2bin", vf_hex(cur_text, cur_len), cur_ig, cur_cap, cur_end); }
+static void gp_init(void)
+{
+    size_t pg = (size_t) sysconf(_SC_PAGESIZE); unsigned char *b = mmap(NULL, 2 * pg, PROT_READ | PROT_WRITE, MAP_PRIVATE | MAP_ANONYMOUS, -1, 0);
+    if (b == MAP_FAILED || mprotect(b + pg, pg, PROT_NONE)) exit(2);
+    gp_end = b + pg; vf_crash_cb = c15_crash_ctx; strcpy(vf_ctx, "c15");
+}
 static void dec_case(int which /* 0..3 = b64 variant index, 4 = hex */, const unsigned char *text, size_t len,
                      int ig, size_t cap, int want_end)
 {
-    unsigned char out[160]; static unsigned char tbuf[256];
+    unsigned char out[160]; static unsigned char tbuf0[256]; unsigned char *tbuf = tbuf0;
     mres          m; size_t bl = 0xdead; const char *end = (const char *) 0x1; int r; char key[200];
     const char   *ign = IGN[ig];
     memset(out, CANARY, sizeof out);
-    memcpy(tbuf, text, len); tbuf[len] = 'A';    /* the byte after the text is a valid digit: reading past len shows */
+    if ((n_eval & 1) && gp_end) { tbuf = gp_end - len; memcpy(tbuf, text, len); cur_text = tbuf; cur_len = len; cur_which = which; cur_ig = ig; cur_cap = cap; cur_end = want_end; }
+    else { memcpy(tbuf, text, len); tbuf[len] = 'A'; }    /* the byte after the text is a valid digit: reading past len shows */
     memset(&m, 0, sizeof m);
     n_eval++;
     if (which < 4) {
@@ -312,6 +323,7 @@ int main(void)
     vf_init_seed();
     thorough = vf_tier_thorough();
     if (sodium_init() < 0) return 2;
+    gp_init();
     build_rep();
     vf_parallel(16, 0, 256, do_short, fin); printf("INFO t_short %ld\n", (long) time(NULL));
     vf_parallel(16, 0, 144, do_class, fin); printf("INFO t_class %ld\n", (long) time(NULL));
